@@ -178,8 +178,10 @@ def check_lossy_only(ctx, prog, fn, name):
         if not os_:
             return False
         for x in os_:
-            if x.kind == "param" and not [p_ for p_ in x.proj if p_.startswith(("idx", "sub"))]:
+            if x.kind in ("param", "local") and not [p_ for p_ in x.proj if p_.startswith(("idx", "sub"))]:
                 continue
+            if x.kind == "call" and (x.data.get("callee") or "").endswith(("Iterator::next", "Vec::<T, A>::pop")) and not [p_ for p_ in x.proj if p_.startswith(("idx", "sub"))]:
+                continue       # the element of the result list being converted
             if x.kind == "call" and depth < 4 and (x.data.get("callee") or "").rsplit("::", 1)[-1] in ("from_utf8", "as_bytes", "into_bytes", "into_vec") and x.data.get("args") \
                     and whole_value(c, leaf_origins(prog, c, x.data["args"][0], at=x.block, terminal_only=True, opaque_index=True), depth + 1):
                 continue
@@ -189,7 +191,7 @@ def check_lossy_only(ctx, prog, fn, name):
         c = decs[0][0]
         for _, b, t in decs:
             ok = ok and whole_value(c, leaf_origins(prog, c, t["args"][0], at=b, terminal_only=True, opaque_index=True))
-        r = _strip_str(prog, c, tracer(prog, c).place({"l": 0, "p": []}))
+        r = _strip_str(prog, c, tracer(prog, c).place({"l": 0, "p": []})) if c.kind == "Closure" or c.id != fn.id else []
         dec_blocks = {b for _, b, t in decs}
         for x in r:
             if x.kind == "call" and x.block in dec_blocks:
@@ -197,7 +199,7 @@ def check_lossy_only(ctx, prog, fn, name):
             if x.kind == "call" and (x.data.get("callee") or "").endswith("String::from_utf8") and whole_value(c, leaf_origins(prog, c, x.data["args"][0], at=x.block, terminal_only=True, opaque_index=True)):
                 continue
             ok = False
-        ok = ok and bool(r)
+        ok = ok and (bool(r) or c.id == fn.id)
     ctx.check(ok, "string-variant-is-lossy-decoding", name,
               "%s does not return String::from_utf8_lossy(<the whole value>) (decoders: %d, other string calls: %s)" % (name, len(decs), sorted({x[2] for x in bad})),
               where=where(fn))
@@ -300,7 +302,8 @@ def check_bulk_put(ctx, prog, fn, name, sites):
     if not ctx.check(ok, "bulk-put", name + ":one-put-in-loop", "%s does not call self.put exactly once inside its loop" % name, where=where(fn)):
         return
     b, t = sites[0]
-    pops = [(bb, tt) for bb, tt in fn.calls() if (tt.get("callee") or "").endswith("Vec::<T, A>::pop")]
+    # one element is drawn from the work list per round: `vec.pop()` or the `next()` of an iterator over it
+    pops = [(bb, tt) for bb, tt in fn.calls() if (tt.get("callee") or "").endswith(("Vec::<T, A>::pop", "Iterator::next")) and in_cycle(fn, bb)]
     copies = [(bb, tt) for bb, tt in fn.calls() if cname(tt) == "to_vec"]
     ok = len(pops) == 1 and len(copies) == 1
     if ok:
